@@ -213,29 +213,23 @@ pub fn vunwrap_or_default(o: Option<Vec<TreeHash>>) -> (r: Vec<TreeHash>)
 {
     match o { Some(v) => v, None => Vec::new() }
 }
-/// R12: `$v.last().copied()` on a slice of `Copy` items
+/// R12: `$v.last().copied()` on a vector of `Copy` items
 #[verifier::external_body]
-pub fn vlast_copied<T: Copy>(v: &[T]) -> (r: Option<T>)
+pub fn vlast_copied<T: Copy>(v: &Vec<T>) -> (r: Option<T>)
     ensures r == (if v@.len() > 0 { Some(v@[v@.len() - 1]) } else { None }),
-{
-    v.last().copied()
-}
+{ unimplemented!() }
 /// R12: `&$s[0..=$i]` followed by `.to_vec()` — the first `i + 1` items; the std
 /// slice index PANICS when `i >= len`: precondition = bounds obligation
 #[verifier::external_body]
 pub fn vprefix_to_vec<T: Copy>(s: &[T], i: usize) -> (r: Vec<T>)
     requires i < s@.len(),
     ensures r@ == s@.take(i + 1),
-{
-    s[0..=i].to_vec()
-}
+{ unimplemented!() }
 /// R12: `for x in $v.iter().rev()` — the references to the items, last first
 #[verifier::external_body]
 pub fn viter_rev<T>(v: &Vec<T>) -> (r: Vec<&T>)
     ensures r@.len() == v@.len(), forall|i: int| 0 <= i < v@.len() ==> *#[trigger] r@[i] == v@[v@.len() - 1 - i],
-{
-    v.iter().rev().collect()
-}
+{ unimplemented!() }
 
 // ---- locks (R9) ----------------------------------------------------------------------
 /// R9: `Arc<tokio::sync::RwLock<T>>` — `read()` gives `&T`, `write()` gives `&mut T`.
